@@ -83,6 +83,29 @@ func (g *Grammar) EOFAlias() int {
 	return -1
 }
 
+// TokenExists tells whether token ti is a terminal of the grammar as yaccgo
+// sees it: declared (by %token or on a precedence line) or used in a rule. A
+// character literal of the specification that is neither declared nor used is
+// not a token at all - its character code is just some integer a lexer might
+// return, and may even coincide with an automatically assigned code.
+func (g *Grammar) TokenExists(ti int) bool {
+	t := g.Tokens[ti]
+	if t.Decl == "token" || t.Decl == "prec" {
+		return !t.IsEOFAlias()
+	}
+	if t.Decl == "undeclared" {
+		return false
+	}
+	for _, ru := range g.Rules {
+		for _, s := range ru.Rhs {
+			if s.T && s.I == ti {
+				return true
+			}
+		}
+	}
+	return false
+}
+
 // YName is the name yaccgo gives the token internally.
 func (t Token) YName() string {
 	if t.Name != "" {
